@@ -2,10 +2,12 @@
    [exact] of a lemma proved in C08_Proofs.v and followed by Print Assumptions.
 
    State = the process-global registries (instance list, event hooks, htpasswd cache and its mutex,
-   log rollers, listening sockets with their descriptors); [attempt m step e c g] is casket.Start /
-   ValidateAndExecuteDirectives(justValidate) / Instance.Restart / the SIGUSR1 handler applied to the
-   abstract configuration [c] in environment [e]; [run] folds a history of attempts and htpasswd-file
-   rewrites.  All statements quantify over ALL configurations, states and histories. *)
+   log rollers, listening sockets with their descriptors, running proxy health-check workers);
+   [attempt m step e c g] is casket.Start / ValidateAndExecuteDirectives(justValidate) / Instance.Restart /
+   the SIGUSR1 handler (loader first, then purge / Restart / restore) applied to the abstract configuration
+   [c] in environment [e]; [attempt_panic] is a reload during which a plugin's setup panics (contained by
+   Restart); [run] folds a history of attempts, contained panics and htpasswd-file rewrites.  All statements
+   quantify over ALL configurations, states and histories. *)
 Require Import V.Lib V.C08_Model V.C08_Proofs.
 Open Scope N_scope.
 
@@ -64,6 +66,47 @@ Example C08_failed_attempt_restores_hooks_nonvacuous :
                  g_hooks g2 = [1] /\ g_hooks g1 = [1]).
 Proof. exact hooks_restored_witness. Qed.
 
+(* ---- 3b. SIGUSR1 when the loader fails at signal time (Casketfile removed / unreadable / loader plugin
+        failing): NOTHING is changed — not up to anything, in any state whatsoever (full).  The handler asks the
+        loader before it backs up and purges the hooks, and leaves right there.  The same holds for every other
+        way of attempting a Casketfile that cannot be loaded. ---- *)
+Theorem C08_failed_sigusr1_load_changes_nothing :
+  forall step e c g, loader_fails c = true -> attempt Sigusr1 step e c g = (RErr, g).
+Proof. exact failed_sigusr1_load_changes_nothing. Qed.
+Print Assumptions C08_failed_sigusr1_load_changes_nothing.
+
+Theorem C08_unloadable_casketfile_changes_nothing :
+  forall m step e c g, loader_fails c = true -> attempt m step e c g = (RErr, g).
+Proof. exact unloadable_changes_nothing. Qed.
+Print Assumptions C08_unloadable_casketfile_changes_nothing.
+
+Example C08_failed_sigusr1_load_changes_nothing_nonvacuous :
+  loader_fails {| c_id := 2; c_parse := PLoader; c_effs := [EOn 1]; c_addrs := [AEph 1] |} = true /\
+  exists g1, attempt Load 1 [] (mkcfg 1 [EOn 2] [AEph 1]) g0 = (ROk, g1) /\ g_hooks g1 = [1; 1] /\
+             attempt Sigusr1 2 [] {| c_id := 2; c_parse := PLoader; c_effs := [EOn 1]; c_addrs := [AEph 1] |} g1 = (RErr, g1).
+Proof. split; [reflexivity|]. eexists. vm_compute. repeat split; reflexivity. Qed.
+
+(* ... whereas the handler with "back up and purge the hooks" moved in front of the load ([do_sigusr1_gen true];
+   the two orders are the same function whenever the loader succeeds) leaves the registry of a reachable state
+   purged: every hook of the still-running configuration is gone. *)
+Theorem C08_sigusr1_purge_before_load_refuted :
+  exists h c rs e g g',
+    run 1 h ([], g0) = (rs, (e, g)) /\ loader_fails c = true /\
+    do_sigusr1_gen true 2 e c g = (RErr, g') /\ g_hooks g = [1; 1] /\ g_hooks g' = [] /\
+    do_sigusr1_gen false 2 e c g = (RErr, g).
+Proof. exact sigusr1_purge_before_load_refuted. Qed.
+Print Assumptions C08_sigusr1_purge_before_load_refuted.
+
+Theorem C08_sigusr1_order_irrelevant_when_loader_succeeds :
+  forall step e c g, loader_fails c = false -> do_sigusr1_gen true step e c g = do_sigusr1_gen false step e c g.
+Proof. exact sigusr1_order_irrelevant_when_loaded. Qed.
+Print Assumptions C08_sigusr1_order_irrelevant_when_loader_succeeds.
+
+Example C08_sigusr1_order_irrelevant_nonvacuous :
+  loader_fails (mkcfg 2 [EOn 1; EBad] [AEph 1]) = false /\
+  loader_fails {| c_id := 2; c_parse := PSyntax; c_effs := []; c_addrs := [AEph 1] |} = false.
+Proof. split; reflexivity. Qed.
+
 (* ---- 4. bounded time: over ALL histories no attempt ever blocks, and the htpasswd mutex is free
         after every history (full; this is the clause the fix ee9fbaa made true) ---- *)
 Theorem C08_no_attempt_ever_hangs :
@@ -119,13 +162,70 @@ Proof. exact htpasswd_cache_witness. Qed.
 
 (* ---- 6. the frame theorem ----
    Full statement "after a failed attempt the state equals the state before, up to the transparent
-   htpasswd cache" is FALSE of the code as it is for one registry only: the roller map (F-C08-3, open).
-   The listening sockets with their descriptors, the event-hook registry and the htpasswd cache are no
-   longer among the witnesses: see 1, 3 and 5. *)
+   htpasswd cache" is FALSE of the code as it is for two registries: the roller map (F-C08-3, open) and the
+   list of running proxy health-check workers (F-C08-5, open: the worker is started while `proxy` is parsed
+   and only the OnShutdown callback of an instance that ran stops it).  The listening sockets with their
+   descriptors, the event-hook registry and the htpasswd cache are not among the witnesses: see 1, 3 and 5. *)
 Theorem C08_failed_attempt_frame_refuted :
   exists c g', attempt Load 1 [] c g0 = (RErr, g') /\ g_rollers g' <> g_rollers g0.
 Proof. exact frame_refuted. Qed.
 Print Assumptions C08_failed_attempt_frame_refuted.
+
+Theorem C08_failed_attempt_leaves_health_checkers_refuted :
+  (exists g', attempt Load 1 [] (mkcfg 1 [EProxy] [ABusy]) g0 = (RErr, g') /\ g_probers g' = [1]) /\
+  (exists g', attempt Validate 1 [] (mkcfg 1 [EProxy; EBad] [AEph 1]) g0 = (RErr, g') /\ g_probers g' = [1]) /\
+  (exists g1 g2, attempt Load 1 [] (mkcfg 1 [EProxy] [AEph 1]) g0 = (ROk, g1) /\ g_probers g1 = [1] /\
+                 attempt Reload 2 [] (mkcfg 2 [EProxy; EBad] [AEph 1]) g1 = (RErr, g2) /\ g_probers g2 = [1; 2]) /\
+  (exists g1 g2, attempt Load 1 [] (mkcfg 1 [EProxy] [AEph 1]) g0 = (ROk, g1) /\
+                 attempt Sigusr1 2 [] (mkcfg 2 [EProxy] [AEph 1; ABusy]) g1 = (RErr, g2) /\ g_probers g2 = [1; 2]) /\
+  (exists g1 g2, attempt Load 1 [] (mkcfg 1 [EProxy] [AEph 1]) g0 = (ROk, g1) /\
+                 attempt Reload 2 [] (mkcfg 2 [EProxy] [AEph 1]) g1 = (ROk, g2) /\ g_probers g2 = [2]).
+Proof. exact health_checkers_refuted. Qed.
+Print Assumptions C08_failed_attempt_leaves_health_checkers_refuted.
+
+(* FULL, NO SIDE CONDITION, for the state without these two registries (and up to what the transparent cache
+   holds): whatever fails, in whatever mode, however far it got — the instance list, the hook registry, the
+   mutex, the socket table with its descriptor counts and the name supply are EXACTLY as before
+   ([same_but_leaks]); and of the two registries that are still written to, nothing is taken away or changed:
+   every roller is as before (rollers are only added), the worker list is the list before followed by workers
+   of this very attempt (none is stopped), and it is untouched when the attempt reaches no proxy directive. *)
+Theorem C08_failed_attempt_frame_without_rollers :
+  forall m step e c g r g',
+  wf g -> attempt m step e c g = (r, g') -> r <> ROk ->
+  same_but_leaks g g' /\
+  (forall f x, assoc f (g_rollers g) = Some x -> assoc f (g_rollers g') = Some x) /\
+  (exists k, g_probers g' = g_probers g ++ repeat step k) /\
+  (no_proxy (c_effs (reached c)) = true -> g_probers g' = g_probers g).
+Proof. exact failed_attempt_frame_without_rollers. Qed.
+Print Assumptions C08_failed_attempt_frame_without_rollers.
+
+Example C08_failed_attempt_frame_without_rollers_nonvacuous :
+  exists g1 g2, attempt Load 1 [] (mkcfg 1 [EOn 1] [AEph 1]) g0 = (ROk, g1) /\ wf g1 /\
+    attempt Reload 2 [] (mkcfg 2 [EOn 2; ELog 1 1 true; EProxy] [AEph 1; AEph 2; ABusy]) g1 = (RErr, g2) /\
+    g_rollers g2 <> g_rollers g1 /\ g_probers g2 <> g_probers g1.
+Proof.
+  eexists. eexists. split; [vm_compute; reflexivity|]. split.
+  - eapply (run_wf [OAttempt Load (mkcfg 1 [EOn 1] [AEph 1])] 1 [] g0 _ _ _ wf_g0). vm_compute. reflexivity.
+  - split; [vm_compute; reflexivity|]. split; vm_compute; discriminate.
+Qed.
+
+(* the same from any two states that differ in these registries only: an attempt reads neither the roller map
+   nor the worker list (it only extends them, and takes out the workers of the instance it stops) *)
+Theorem C08_attempt_ignores_rollers_and_workers :
+  forall m step e c g1 g2 r g1',
+  cache_ok g1 -> cache_ok g2 -> same_but_leaks g1 g2 -> attempt m step e c g1 = (r, g1') ->
+  exists g2', attempt m step e c g2 = (r, g2') /\ same_but_leaks g1' g2' /\ cache_ok g2'.
+Proof. exact attempt_ignores_leaks. Qed.
+Print Assumptions C08_attempt_ignores_rollers_and_workers.
+
+Example C08_attempt_ignores_rollers_and_workers_nonvacuous :
+  exists g', attempt Load 1 [] (mkcfg 1 [ELog 1 1 true; EProxy] [ABusy]) g0 = (RErr, g') /\
+             cache_ok g0 /\ cache_ok g' /\ same_but_leaks g0 g' /\ g' <> g0 /\
+             fst (attempt Load 2 [] (mkcfg 2 [ELog 1 50 true] [AEph 1]) g') = ROk.
+Proof.
+  eexists. split; [vm_compute; reflexivity|]. split; [intros f h; discriminate|]. split; [intros f h; discriminate|].
+  split; [repeat split; reflexivity|]. split; [discriminate|vm_compute; reflexivity].
+Qed.
 
 (* Strongest true statement: the ENTIRE state except what the (transparent) cache holds is unchanged by a
    failed attempt that does not REACH the remaining leak.  [reached c] is the part of the configuration an
@@ -184,6 +284,32 @@ Example C08_valid_after_failures_partial_nonvacuous :
   forallb harmless_op h = true /\ attempts_failed h (fst (run 1 h ([], g0))).
 Proof. vm_compute. repeat split; discriminate. Qed.
 
+(* FULL, NO SIDE CONDITION on the configurations, for the state without the two leaking registries: over ALL
+   histories of attempts that return and fail (every mode, every kind of failure at every stage — [returns_op]
+   only excludes the contained panics of 10) and of file rewrites, from ANY reachable state, the state is the
+   state before the history up to the cache, the roller map and the worker list; so every later attempt — in
+   particular loading a valid configuration — has the outcome it has without the failures (from [g0]: in a
+   fresh process) and the same effect on everything but these three. *)
+Theorem C08_valid_after_failures_without_rollers :
+  forall h step0 e g rs e' g',
+  wf g -> forallb returns_op h = true ->
+  run step0 h (e, g) = (rs, (e', g')) -> attempts_failed h rs ->
+  same_but_leaks g g' /\ e' = writes h e /\
+  forall m step v r ga, attempt m step (writes h e) v g = (r, ga) ->
+  exists gb, attempt m step e' v g' = (r, gb) /\ same_but_leaks ga gb.
+Proof. exact valid_after_failures_without_rollers. Qed.
+Print Assumptions C08_valid_after_failures_without_rollers.
+
+Example C08_valid_after_failures_without_rollers_nonvacuous :
+  let h := [OAttempt Load (mkcfg 1 [EOn 1; ELog 1 1 true; EAuth 1 1; EProxy] [AEph 1; ABusy]);
+            OAttempt Sigusr1 {| c_id := 2; c_parse := PLoader; c_effs := []; c_addrs := [AEph 1] |};
+            OWrite 1 (users [(1, 1)]);
+            OAttempt Execute (mkcfg 3 [EProxy; EBad] [AEph 1]);
+            OAttempt Load (mkcfg 4 [ELog 1 1 true; ELog 3 7 false] [AEph 2])] in
+  forallb returns_op h = true /\ forallb harmless_op h = false /\
+  attempts_failed h (fst (run 1 h ([(1, users [(1, 1)])], g0))).
+Proof. vm_compute. repeat split; discriminate. Qed.
+
 (* Without the side condition the statement is FALSE of the code as it is: a valid configuration loads after
    a failed attempt but behaves differently from a fresh process: it rotates its log with the settings of
    the rejected configuration (F-C08-3, open). *)
@@ -220,6 +346,37 @@ Print Assumptions C08_valid_reload_succeeds.
 Example C08_valid_config_loads_nonvacuous :
   cfg_valid [(1, users [(1, 1)])] (mkcfg 7 [EOn 1; ELog 1 50 true; EAuth 1 1] [AEph 1; AEph 2]) = true.
 Proof. vm_compute. reflexivity. Qed.
+
+(* ---- 10. a panic contained by Restart (F-C08-6, open) ----
+   Restart recovers a panic of a plugin's setup and returns (nil, nil); the deferred clean-up of
+   startWithListenerFds and the SIGUSR1 handler both key on err != nil.  [attempt_panic sig] is such a reload
+   (through the API, or through SIGUSR1 when [sig]).  The frame is FALSE for it: the half-made instance stays in
+   the instance list, the hooks registered so far stay, and after SIGUSR1 the hooks of the running
+   configuration are gone. *)
+Theorem C08_contained_panic_frame_refuted :
+  exists g1 g2 g3,
+    attempt Load 1 [] (mkcfg 1 [EOn 1] [AEph 1]) g0 = (ROk, g1) /\ g_hooks g1 = [1] /\ length (g_insts g1) = 1%nat /\
+    attempt_panic false 2 [] (mkcfg 2 [EOn 1] [AEph 1]) g1 = (RErr, g2) /\
+    g_hooks g2 = [1; 2] /\ length (g_insts g2) = 2%nat /\
+    attempt_panic true 3 [] (mkcfg 3 [EOn 1] [AEph 1]) g1 = (RErr, g3) /\
+    g_hooks g3 = [3] /\ length (g_insts g3) = 2%nat.
+Proof. exact contained_panic_refuted. Qed.
+Print Assumptions C08_contained_panic_frame_refuted.
+
+(* Strongest true statement (every configuration, every well-formed state): it never reports success, and it
+   leaves alone the socket table with its descriptor counts, the mutex, every roller and every instance that
+   was running (still in the list, its listeners open); at most ONE half-made instance without servers is
+   appended.  After ANY history including such panics a valid configuration still loads (8), no attempt
+   blocks (4) and the state is well-formed (9). *)
+Theorem C08_contained_panic_partial :
+  forall sg step e c g r g',
+  wf g -> attempt_panic sg step e c g = (r, g') ->
+  r <> ROk /\ g_socks g' = g_socks g /\ g_next g' = g_next g /\ g_htlock g' = g_htlock g /\
+  (forall f x, assoc f (g_rollers g) = Some x -> assoc f (g_rollers g') = Some x) /\
+  (g_insts g' = g_insts g \/ exists z, g_insts g' = g_insts g ++ [z] /\ i_servers z = []) /\
+  (forall i, In i (g_insts g) -> alive g i -> alive g' i).
+Proof. exact contained_panic_partial. Qed.
+Print Assumptions C08_contained_panic_partial.
 
 (* ---- 9. the well-formedness used above is an invariant of every history ---- *)
 Theorem C08_reachable_states_wellformed :
